@@ -220,3 +220,368 @@ def gen_upd(rng, maxblocks=6):
         u.rows[i] = tuple(r)
         u.tags.append("special")
     return u
+
+
+# ------------------------------------------------------------------------------------------ output parsing
+def parse_upd_out(out):
+    """'c <cost> | f .. | s .. | h ..;..' -> (cost, forces, states, hess list) or None"""
+    if not out.startswith("c "):
+        return None
+    p = out.split(" | ")
+    if len(p) != 4:
+        return None
+    cost = unhex(p[0].split()[1])
+    f = [unhex(x) for x in p[1].split()[1:]]
+    s = [int(x) for x in p[2].split()[1:]]
+    hs = []
+    for h in p[3][1:].split(";"):
+        h = h.strip()
+        hs.append(None if h in ("-", "") else [unhex(x) for x in h.split()])
+    return cost, f, s, hs
+
+
+def walk_blocks(u):
+    """(kind, first row, nrows, contact) blocks of an Upd in the order the function visits them"""
+    i, n, out = 0, len(u.rows), []
+    while i < n:
+        ty, cid = u.rows[i][4], u.rows[i][5]
+        if i < u.ne:
+            out.append(("eq", i, 1, None))
+            i += 1
+        elif i < u.ne + u.nf:
+            out.append(("fric", i, 1, None))
+            i += 1
+        elif ty != ELL:
+            out.append(("nonneg", i, 1, None))
+            i += 1
+        else:
+            dim = u.cons[cid][0]
+            out.append(("ell", i, dim, u.cons[cid]))
+            i += dim
+    return out
+
+
+def finite(*xs):
+    return all(x == x and abs(x) != math.inf for x in xs)
+
+
+def related(u, i, dim, con, rtol=1e-10):
+    """does the block satisfy the hypotheses of elliptic_in_cone (D>0, mu>0, friction>0, impedance relation)?"""
+    _, mu, fr = con
+    D0 = u.rows[i][0]
+    if not (finite(D0, mu) and D0 > 0 and mu > 0):
+        return False
+    for j in range(1, dim):
+        Dj, w = u.rows[i + j][0], fr[j - 1]
+        if not (finite(Dj, w) and w > 0 and Dj > 0):
+            return False
+        a, b = Dj * mu * mu, D0 * w * w
+        if abs(a - b) > rtol * max(abs(a), abs(b)):
+            return False
+    return True
+
+
+def admissible_oracle(u, out):
+    """C11 predicates on the output of the real function for one synthetic call. Returns list of (key, what)."""
+    r = parse_upd_out(out)
+    bad = []
+    if r is None:
+        return bad
+    cost, f, s, hs = r
+    for kind, i, n, con in walk_blocks(u):
+        D, R, fl, jar = u.rows[i][:4]
+        if kind == "fric":
+            if finite(D, R, fl, jar) and D > 0 and fl >= 0 and abs(D * R - 1) <= 1e-12:
+                if not (abs(f[i]) <= fl * (1 + 1e-11)):
+                    bad.append(("c11:frictionloss-bound", "|efc_force| = %r exceeds frictionloss %r (jar=%r, D=%r, R=%r)" % (f[i], fl, jar, D, R)))
+        elif kind == "nonneg":
+            if finite(D, jar) and D >= 0:
+                if not (f[i] >= 0):
+                    bad.append(("c11:nonneg-force", "limit/contact force %r < 0 (jar=%r, D=%r)" % (f[i], jar, D)))
+        elif kind == "ell":
+            dim, mu, fr = con
+            vals = [u.rows[i + j][3] for j in range(dim)]
+            if not finite(*vals) or not finite(*f[i:i + dim]):
+                continue
+            if s[i] == 4 or related(u, i, dim, con):
+                ok_hyp = finite(mu, u.rows[i][0]) and mu > 0 and u.rows[i][0] > 0 and all(fr[j] > 0 for j in range(dim - 1))
+                if not ok_hyp:
+                    continue
+                fN = f[i]
+                tn = math.sqrt(sum((f[i + j] / fr[j - 1]) ** 2 for j in range(1, dim)))
+                sc = max(abs(fN), tn, 1e-300)
+                if not (fN >= 0):
+                    bad.append(("c11:elliptic-normal-negative", "elliptic normal force %r < 0 (state %d, dim %d)" % (fN, s[i], dim)))
+                elif tn > fN + 1e-9 * sc:
+                    bad.append(("c11:elliptic-outside-cone", "friction-weighted tangential norm %r exceeds normal force %r (state %d, dim %d)" % (tn, fN, s[i], dim)))
+                elif s[i] == 4 and abs(tn - fN) > 1e-9 * sc:
+                    bad.append(("c11:elliptic-middle-off-surface", "middle-zone force not on the cone surface: %r vs %r" % (tn, fN)))
+    return bad
+
+
+# ------------------------------------------------------------------------------------------ other synthetic ops
+def gen_misc(rng, n):
+    lines = []
+    for _ in range(n):
+        k = rng.random()
+        if k < 0.3:
+            nr, nc = rng.randint(0, 7), rng.randint(1, 7)
+            mat = [rng.gauss(0, 1) * pos_scale(rng) if rng.random() < 0.9 else 0.0 for _ in range(nr * nc)]
+            vec = [rng.choice((0.0, -0.0, rng.gauss(0, 1), rng.gauss(0, 1), special(rng) if rng.random() < 0.1 else 1.0)) for _ in range(nr)]
+            lines.append("jtv %d %d %s" % (nr, nc, " ".join(hexf(x) for x in mat + vec)))
+        elif k < 0.55:
+            dim = rng.choice((1, 3, 4, 6, 2, 5))
+            npyr = 1 if dim == 1 else 2 * (dim - 1)
+            pyr = [abs(rng.gauss(0, 1)) * pos_scale(rng) if rng.random() < 0.8 else rng.choice((0.0, -0.5, special(rng))) for _ in range(npyr)]
+            lines.append("dec %d %s" % (dim, " ".join(hexf(x) for x in pyr + gen_friction(rng))))
+        elif k < 0.7:
+            dim = rng.choice((3, 4, 6, 2, 5))
+            fo = [abs(rng.gauss(0, 1)) * pos_scale(rng)] + [rng.gauss(0, 1) for _ in range(dim - 1)]
+            lines.append("enc %d %s" % (dim, " ".join(hexf(x) for x in fo + gen_friction(rng))))
+        else:
+            ell = rng.randint(0, 1)
+            dim = rng.choice((1, 3, 4, 6, 2, 5))
+            f0 = rng.choice((rng.gauss(0, 1), abs(rng.gauss(0, 1)) * pos_scale(rng), 0.0, -0.0, 1e-16))
+            ft = [rng.gauss(0, 1) * rng.choice((0.01, 1.0, 100.0)) for _ in range(dim - 1)]
+            if rng.random() < 0.1:
+                ft = [0.0] * (dim - 1)
+            lines.append("pc %d %d %s" % (ell, dim, " ".join(hexf(x) for x in [f0] + ft + gen_friction(rng))))
+    return lines
+
+
+def misc_oracle(line, out):
+    w = line.split()
+    try:
+        o = [unhex(x) for x in out.split()]
+    except Exception:
+        return None
+    if w[0] == "pc":
+        ell, dim = int(w[1]), int(w[2])
+        x = [unhex(t) for t in w[3:]]
+        mu = x[dim:]
+        if not finite(*x) or len(o) != dim or not finite(*o):
+            return None
+        if not (o[0] >= 0):
+            return ("c11:projectCone-normal-negative", "projectCone returned normal force %r" % o[0])
+        if ell and dim > 1:
+            s = sum(o[j] * o[j] / (mu[j - 1] * mu[j - 1]) for j in range(1, dim))
+            if s > o[0] * o[0] * (1 + 1e-9) + 1e-300:
+                return ("c11:projectCone-outside-cone", "projectCone output outside the cone: sum f^2/mu^2 = %r > normal^2 = %r" % (s, o[0] * o[0]))
+    elif w[0] == "dec":
+        dim = int(w[1])
+        x = [unhex(t) for t in w[2:]]
+        npyr = 1 if dim == 1 else 2 * (dim - 1)
+        pyr, mu = x[:npyr], x[npyr:]
+        if not finite(*x) or any(p < 0 for p in pyr) or len(o) != dim:
+            return None
+        tot = sum(pyr)
+        if abs(o[0] - tot) > 1e-12 * max(1.0, abs(tot)):
+            return ("c11:decodePyramid-normal", "decoded normal %r is not the sum of the edges %r" % (o[0], tot))
+        if dim > 1 and sum(abs(o[j]) / mu[j - 1] for j in range(1, dim)) > o[0] * (1 + 1e-9) + 1e-300:
+            return ("c11:decodePyramid-outside-pyramid", "decoded friction outside the pyramid")
+    elif w[0] == "jtv":
+        nr, nc = int(w[1]), int(w[2])
+        x = [unhex(t) for t in w[3:]]
+        if not finite(*x) or len(o) != nc:
+            return None
+        mat, vec = x[:nr * nc], x[nr * nc:]
+        for c in range(nc):
+            terms = [mat[r * nc + c] * vec[r] for r in range(nr)]
+            ref = math.fsum(terms)
+            sc = sum(abs(t) for t in terms) + 1e-300
+            if abs(o[c] - ref) > 1e-12 * sc:
+                return ("c11:mulMatTVec", "mju_mulMatTVec entry %d = %r, J'f = %r" % (c, o[c], ref))
+    return None
+
+
+# ------------------------------------------------------------------------------------------ engine scenes
+SCENE_PROFILE = {
+    "nbody": (2, 7), "free": 0.6, "plane": 1.0, "contacts": 1.0, "limits": 0.6, "frictionloss": 0.6, "equalities": 0.7,
+    "tendons": 0.5, "mocap": 0.0, "static_body": 0.05, "sleep": 0.0, "geoms": (1, 2), "sensors": (0, 0), "cameras": 0.0,
+    "actuators": (0, 2), "actuator_kinds": ("motor", "position"), "keys": 0.0, "numeric": 0.0, "pairs": 0.3,
+}
+SOLVERS = ("PGS", "CG", "NEWTON")
+CONES = ("PYRAMIDAL", "ELLIPTIC")
+
+
+def gen_scene_script(ctx, nmodels):
+    """returns (script lines, meta list aligned with the lines that produce output)"""
+    rng = ctx.rng
+    script, meta = [], []
+    hist = {}
+    for mi in range(nmodels):
+        mdl = ModelGen(rng, SCENE_PROFILE).make()
+        script.append("model")
+        script += mdl.lines + ["end"]
+        meta.append(("model", None))
+        ngeom = sum(1 for l in mdl.lines if l.startswith("geom "))
+        adhesion = rng.random() < 0.25
+        if adhesion:
+            script.append("adhesion " + " ".join(repr(rng.choice((0.0, 0.0, rng.uniform(0.1, 5.0)))) for _ in range(ngeom)))
+            meta.append(("ok", None))
+        nstate = 2 if ctx.tier == "quick" else 3
+        for si in range(nstate):
+            st = mdl.random_state(rng, scale=0.7)
+            # drop free bodies close to the floor so that contacts exist
+            q = list(st["qpos"])
+            for j in mdl.joints:
+                if j["type"] == "free":
+                    q[j["qposadr"] + 2] = rng.uniform(0.02, 0.35)
+            combos = [(s, c) for s in SOLVERS for c in CONES]
+            for (sol, cone) in combos:
+                jac = rng.choice(("DENSE", "SPARSE"))
+                iters = rng.choice((50, 200))
+                tol = rng.choice((1e-8, 1e-12))
+                impratio = rng.choice((1.0, 1.0, 0.5, 3.0, 10.0))
+                noslip = rng.choice((0, 0, 0, 3))
+                steps = rng.choice((0, 0, 1, 3, 10))
+                script.append("reset")
+                meta.append(("ok", None))
+                script.append("opt %d %d %d %d %r %r %d" % (E("mjSOL_" + sol), E("mjCONE_" + cone), E("mjJAC_" + jac), iters, tol, impratio, noslip))
+                meta.append(("ok", None))
+                for fld in ("qpos", "qvel", "act", "ctrl", "qfrc_applied", "xfrc_applied"):
+                    v = q if fld == "qpos" else st[fld]
+                    if v:
+                        script.append("set %s %s" % (fld, " ".join(repr(float(x)) for x in v)))
+                        meta.append(("ok", None))
+                if steps:
+                    script.append("step %d" % steps)
+                    meta.append(("ok", None))
+                info = {"model": mi, "state": si, "solver": sol, "cone": cone, "jacobian": jac, "iterations": iters, "tolerance": tol,
+                        "impratio": impratio, "noslip": noslip, "steps": steps, "adhesion": adhesion}
+                script.append("fwd")
+                meta.append(("fwd", info))
+                script.append("updline %d" % rng.randint(0, 1))
+                meta.append(("updline", info))
+                k = "%s:%s:%s" % (sol, cone, jac)
+                hist[k] = hist.get(k, 0) + 1
+    ctx.extra["scene_distribution"] = hist
+    return script, meta
+
+
+def decode_py(p, mu, dim):
+    if dim == 1:
+        return [p[0]]
+    n = 0.0
+    for x in p[:2 * (dim - 1)]:
+        n += x
+    return [n] + [(p[2 * i] - p[2 * i + 1]) * mu[i] for i in range(dim - 1)]
+
+
+def scene_oracle(d):
+    """C11 predicates on one mj_forward dump. Returns (list of (key, what), stats dict)."""
+    bad, stats = [], {}
+    nefc, nv, ne, nf = d["nefc"], d["nv"], d["ne"], d["nf"]
+    f, ty = d["force"], d["type"]
+    if not finite(*f) or not finite(*d["qfrc_constraint"]):
+        return bad, {"nonfinite": 1}
+    scale = max([1.0] + [abs(x) for x in f])
+    tol = 1e-9 * scale
+    # regulariser hypotheses of the theorems on engine data
+    for i in range(nefc):
+        if not (d["D"][i] > 0 and abs(d["D"][i] * d["R"][i] - 1) <= 1e-12):
+            bad.append(("c11:hyp:D-R", "efc_D[%d]*efc_R[%d] = %r" % (i, i, d["D"][i] * d["R"][i])))
+        if d["floss"][i] < 0:
+            bad.append(("c11:hyp:floss", "negative efc_frictionloss"))
+    for i in range(ne, ne + nf):
+        stats["fric"] = stats.get("fric", 0) + 1
+        if abs(f[i]) > d["floss"][i] + tol:
+            bad.append(("c11:frictionloss-bound", "row %d: |efc_force| = %r > frictionloss %r" % (i, abs(f[i]), d["floss"][i])))
+    i = ne + nf
+    while i < nefc:
+        if ty[i] in (3, 4, 5, 6):
+            stats["nonneg"] = stats.get("nonneg", 0) + 1
+            if f[i] < -tol:
+                bad.append(("c11:nonneg-force", "row %d (type %d): efc_force = %r < 0" % (i, ty[i], f[i])))
+            i += 1
+        elif ty[i] == ELL:
+            c = d["contacts"][d["id"][i]]
+            dim, fr, mu = c["dim"], c["friction"], c["mu"]
+            stats["elliptic"] = stats.get("elliptic", 0) + 1
+            fN = f[i]
+            tn = math.sqrt(sum((f[i + j] / fr[j - 1]) ** 2 for j in range(1, dim)))
+            if fN < -tol:
+                bad.append(("c11:elliptic-normal-negative", "contact %d: normal force %r < 0" % (d["id"][i], fN)))
+            if tn > fN + tol:
+                bad.append(("c11:elliptic-outside-cone", "contact %d (dim %d): tangential norm %r > normal %r" % (d["id"][i], dim, tn, fN)))
+            # impedance relation (hypothesis of elliptic_in_cone) on the engine's own arrays
+            if not (mu > 0):
+                bad.append(("c11:hyp:mu", "contact.mu = %r" % mu))
+            for j in range(1, dim):
+                a, b = d["D"][i + j] * mu * mu, d["D"][i] * fr[j - 1] * fr[j - 1]
+                if abs(a - b) > 1e-9 * max(abs(a), abs(b)):
+                    bad.append(("c11:hyp:impedance-relation", "contact %d row %d: D_j*mu^2 = %r, D_0*friction^2 = %r" % (d["id"][i], j, a, b)))
+            i += dim
+        else:
+            bad.append(("c11:rowtype", "row %d beyond ne+nf has type %d" % (i, ty[i])))
+            i += 1
+    # qfrc_constraint = J' efc_force
+    J = d["J"]
+    for c in range(nv):
+        terms = [J[r * nv + c] * f[r] for r in range(nefc)]
+        ref = math.fsum(terms)
+        sc = sum(abs(t) for t in terms) + 1e-300
+        if abs(d["qfrc_constraint"][c] - ref) > 1e-9 * max(sc, 1e-6):
+            bad.append(("c11:qfrc_constraint", "dof %d: qfrc_constraint = %r, J'f = %r" % (c, d["qfrc_constraint"][c], ref)))
+    # mj_contactForce consistency
+    for k, c in enumerate(d["contacts"]):
+        cf, dim, adr = c["cf"], c["dim"], c["adr"]
+        if adr < 0:
+            if any(x != 0 for x in cf):
+                bad.append(("c11:contactForce-excluded", "contact %d without efc rows has force %r" % (k, cf)))
+            continue
+        stats["contactForce"] = stats.get("contactForce", 0) + 1
+        if d["pyramidal"]:
+            ref = decode_py(f[adr:adr + max(1, 2 * (dim - 1))], c["friction"], dim)
+        else:
+            ref = list(f[adr:adr + dim])
+        if dim > 1 and d["pyramidal"]:
+            if ref[0] < -tol or sum(abs(ref[j]) / c["friction"][j - 1] for j in range(1, dim)) > ref[0] + tol:
+                bad.append(("c11:contactForce-outside-pyramid", "contact %d: decoded force %r outside the friction pyramid" % (k, ref)))
+        ref[0] -= c["adhesion"]
+        ref += [0.0] * (6 - dim)
+        if any(abs(a - b) > 1e-12 * max(1.0, abs(b)) for a, b in zip(cf, ref)):
+            bad.append(("c11:contactForce-mismatch", "contact %d: mj_contactForce = %r, from efc_force = %r" % (k, cf, ref)))
+    return bad, stats
+
+
+def run_scenes(ctx, drv, impl, nmodels, label="engine scenes"):
+    script, meta = gen_scene_script(ctx, nmodels)
+    rc, outs, err = ctx.run_lines([impl], script)
+    # outputs: one line per command except the description lines between model..end
+    nfail, updlines, stats_tot = 0, [], {}
+    if rc != 0 or len(outs) != len(meta):
+        ctx.oracle_failure("c11:scene-crash", "constraint harness crashed or lost sync on engine scenes (rc=%s, %d outputs for %d commands)"
+                           % (rc, len(outs), len(meta)), {"stderr": err[-500:]})
+        return 1, []
+    cur_model = None
+    nfwd = 0
+    for (kind, info), o in zip(meta, outs):
+        if kind == "model":
+            cur_model = o
+            continue
+        if kind == "fwd" and o.startswith("{"):
+            try:
+                d = json.loads(o)
+            except Exception:
+                ctx.oracle_failure("c11:scene-parse", "unparsable dump", {"out": o[:300]})
+                continue
+            nfwd += 1
+            bad, st = scene_oracle(d)
+            for k, v in st.items():
+                stats_tot[k] = stats_tot.get(k, 0) + v
+            ctx.count(("scene", info["model"], info["state"], info["solver"], info["cone"], ctx.seed), nontrivial=d["nefc"] > 0)
+            for key, what in bad:
+                nfail += 1
+                if nfail <= 6:
+                    ctx.oracle_failure(key, what, {"scene": info, "seed": ctx.seed, "tier": ctx.tier,
+                                                   "replay": "VERIF_SEED=%d ./check C11 --tier %s  (scene model %d state %d %s/%s)"
+                                                             % (ctx.seed, ctx.tier, info["model"], info["state"], info["solver"], info["cone"]),
+                                                   "nefc": d["nefc"], "force": d["force"][:60], "type": d["type"][:60]})
+            if nfwd == 3:
+                ctx.sample({"scene": info, "nefc": d["nefc"], "ncon": d["ncon"], "efc_type": d["type"][:24], "efc_force": d["force"][:8]})
+        elif kind == "updline" and o.startswith("upd "):
+            updlines.append(o)
+    ctx.extra["scene_forward_calls"] = nfwd
+    ctx.extra["scene_rows_checked"] = stats_tot
+    return nfail, updlines
